@@ -1,4 +1,5 @@
 import ESV.Comp.CgSwitch4
+import ESV.Comp.CgLabel
 /-
 `codegen_correct`: the recursion over the statement tree.
 -/
@@ -9,99 +10,105 @@ section main
 variable (cx : Cx) (fuel : Nat) (lv : Nat)
 
 mutual
-theorem cStmt_c : ∀ (st : Stmt) (lb : Nat), cgStmt lv st = true → ∀ (env : Src.Env), PlainEnv env →
+theorem cStmt_c : ∀ (st : Stmt) (lb : Nat), cgStmt lv st = true → (∀ n ∈ mlStmt st, n ∈ cx.defs) → ∀ (env : Src.Env), EnvOK cx env →
     PM cx (cStmt [] lb st) (fun k b => Src.tr fuel [] env (toSrcStmt st) k b) env
-  | .op n ps, lb, hg, env, he => simple_pm cx fuel _ lb (by simpa [cgStmt] using hg) env he
-  | .ret, lb, _, env, he => simple_pm cx fuel _ lb rfl env he
-  | .end_, lb, _, env, he => simple_pm cx fuel _ lb rfl env he
-  | .hold, lb, _, env, he => simple_pm cx fuel _ lb rfl env he
-  | .inl c cp n ps, lb, hg, env, he => simple_pm cx fuel _ lb (by simpa [cgStmt] using hg) env he
-  | .with_ c cp inner, lb, hg, env, he => simple_pm cx fuel _ lb (by simpa [cgStmt] using hg) env he
-  | .ite neg hdrs body elifs hasElse els, lb, hg, env, he => by
+  | .op n ps, lb, hg, hu, env, he => simple_pm cx fuel _ lb (by simpa [cgStmt] using hg) env he
+  | .ret, lb, _, hu, env, he => simple_pm cx fuel _ lb rfl env he
+  | .end_, lb, _, hu, env, he => simple_pm cx fuel _ lb rfl env he
+  | .hold, lb, _, hu, env, he => simple_pm cx fuel _ lb rfl env he
+  | .inl c cp n ps, lb, hg, hu, env, he => simple_pm cx fuel _ lb (by simpa [cgStmt] using hg) env he
+  | .with_ c cp inner, lb, hg, hu, env, he => simple_pm cx fuel _ lb (by simpa [cgStmt] using hg) env he
+  | .ite neg hdrs body elifs hasElse els, lb, hg, hu, env, he => by
     simp only [cgStmt, Bool.and_eq_true] at hg
     simp only [cStmt, toSrcStmt, toSrcElifs_eq]
     exact ite_piece cx fuel env he neg hdrs hasElse body els (synOf elifs) (hdrsOK_of_all hdrs hg.1.1.1)
-      (cStmts_c body _ hg.1.1.2 env he) (cStmts_c els _ hg.2 env he) (cElifsA_c elifs _ hg.1.2 env he) (cElifsB_c elifs _ hg.1.2 env he)
-  | .label _, _, hg, _, _ => by simp [cgStmt] at hg
-  | .jump _, _, hg, _, _ => by simp [cgStmt] at hg
-  | .call _, _, hg, _, _ => by simp [cgStmt] at hg
-  | .brk, _, _, env, _ => by
+      (cStmts_c body _ hg.1.1.2 (fun n hn => hu n (by simp [mlStmt, mlStmts, mlElifs, mlCases, hn])) env he) (cStmts_c els _ hg.2 (fun n hn => hu n (by simp [mlStmt, mlStmts, mlElifs, mlCases, hn])) env he) (cElifsA_c elifs _ hg.1.2 (fun n hn => hu n (by simp [mlStmt, mlStmts, mlElifs, mlCases, hn])) env he) (cElifsB_c elifs _ hg.1.2 (fun n hn => hu n (by simp [mlStmt, mlStmts, mlElifs, mlCases, hn])) env he)
+  | .label n, _, _, hu, env, he => by
+    simp only [cStmt, toSrcStmt]
+    exact label_pm cx fuel env he n (hu n (by simp [mlStmt]))
+  | .jump n, _, _, hu, env, _ => by
+    simp only [cStmt, toSrcStmt]
+    exact jump_pm cx fuel env n (hu n (by simp [mlStmt]))
+  | .call n, _, _, hu, env, _ => by
+    simp only [cStmt, toSrcStmt]
+    exact call_pm cx fuel env n (hu n (by simp [mlStmt]))
+  | .brk, _, _, hu, env, _ => by
     simp only [cStmt, toSrcStmt]
     exact brk_pm cx fuel env
-  | .cont, _, _, env, _ => by
+  | .cont, _, _, hu, env, _ => by
     simp only [cStmt, toSrcStmt]
     exact cont_pm cx fuel env
-  | .brkLoop, _, _, env, _ => by
+  | .brkLoop, _, _, hu, env, _ => by
     simp only [cStmt, toSrcStmt]
     exact brkLoop_pm cx fuel env
-  | .switch hdr cs, lb, hg, env, he => by
+  | .switch hdr cs, lb, hg, hu, env, he => by
     simp only [cgStmt, Bool.and_eq_true, Bool.not_eq_true', decide_eq_true_eq] at hg
     simp only [cStmt, toSrcStmt]
     exact switch_pm cx fuel env he hdr cs _ hg.1.1.1.1.2 hg.1.1.1.2 (by intro h; rw [h] at hg; simp [Cases.isNil] at hg) hg.1.2
-      (cCases_c cs lb hdr.name hg.2)
-  | .forever body, lb, hg, env, he => by
+      (cCases_c cs lb hdr.name hg.2 (fun n hn => hu n (by simp [mlStmt, mlStmts, mlElifs, mlCases, hn])))
+  | .forever body, lb, hg, hu, env, he => by
     simp only [cgStmt, Bool.and_eq_true] at hg
     simp only [cStmt, toSrcStmt]
-    exact forever_pm cx fuel env he lb body _ (fun env' he' => cStmts_c body _ hg.2 env' he')
-  | .while_ neg hd body, lb, hg, env, he => by
+    exact forever_pm cx fuel env he lb body _ (fun env' he' => cStmts_c body _ hg.2 (fun n hn => hu n (by simp [mlStmt, mlStmts, mlElifs, mlCases, hn])) env' he')
+  | .while_ neg hd body, lb, hg, hu, env, he => by
     simp only [cgStmt, Bool.and_eq_true] at hg
     simp only [cStmt, toSrcStmt]
-    exact while_pm cx fuel env he lb neg hd body _ hg.1.2 (fun env' he' => cStmts_c body _ hg.2 env' he')
-  | .for_ init hd inc body, lb, hg, env, he => by
+    exact while_pm cx fuel env he lb neg hd body _ hg.1.2 (fun env' he' => cStmts_c body _ hg.2 (fun n hn => hu n (by simp [mlStmt, mlStmts, mlElifs, mlCases, hn])) env' he')
+  | .for_ init hd inc body, lb, hg, hu, env, he => by
     simp only [cgStmt, Bool.and_eq_true] at hg
     simp only [cStmt, toSrcStmt]
     exact for_pm cx fuel env he lb hd init inc body _ _ _ hg.1.1.1.2 (simple_c cx fuel init _ hg.1.1.2 env he)
-      (simple_c cx fuel inc _ hg.1.2 env he) (fun env' he' => cStmts_c body _ hg.2 env' he')
-  | .macroCall .., _, hg, _, _ => by simp [cgStmt] at hg
+      (simple_c cx fuel inc _ hg.1.2 env he) (fun env' he' => cStmts_c body _ hg.2 (fun n hn => hu n (by simp [mlStmt, mlStmts, mlElifs, mlCases, hn])) env' he')
+  | .macroCall .., _, hg, hu, _, _ => by simp [cgStmt] at hg
 
-theorem cStmts_c : ∀ (ss : Stmts) (lb : Nat), cgStmts lv ss = true → ∀ (env : Src.Env), PlainEnv env →
+theorem cStmts_c : ∀ (ss : Stmts) (lb : Nat), cgStmts lv ss = true → (∀ n ∈ mlStmts ss, n ∈ cx.defs) → ∀ (env : Src.Env), EnvOK cx env →
     PM cx (cStmts [] lb ss) (fun k b => Src.trStmts fuel [] env (toSrcStmts ss) k b) env
-  | .nil, lb, _, env, he => by
+  | .nil, lb, _, hu, env, he => by
     intro s items s' h
     simp only [cStmts, pure_ok, Prod.mk.injEq] at h
     obtain ⟨rfl, rfl⟩ := h
     refine pieceOK_congr (nil_piece cx _ env) (fun k b => ?_)
     simp only [toSrcStmts]; rw [Src.trStmts]
-  | .cons st r, lb, hg, env, he => by
+  | .cons st r, lb, hg, hu, env, he => by
     intro s items s' h
     simp only [cgStmts, Bool.and_eq_true] at hg
     simp only [cStmts, bind_ok, pure_ok] at h
     obtain ⟨a, s1, h1, bb, s2, h2, h3⟩ := h
     simp only [Prod.mk.injEq] at h3
     obtain ⟨rfl, rfl⟩ := h3
-    have pA := cStmt_c st lb hg.1 env he _ _ _ h1
-    have pB := cStmts_c r _ hg.2 env he _ _ _ h2
+    have pA := cStmt_c st lb hg.1 (fun n hn => hu n (by simp [mlStmt, mlStmts, mlElifs, mlCases, hn])) env he _ _ _ h1
+    have pB := cStmts_c r _ hg.2 (fun n hn => hu n (by simp [mlStmt, mlStmts, mlElifs, mlCases, hn])) env he _ _ _ h2
     refine pieceOK_congr (seq_piece cx pA pB) (fun k b => ?_)
     simp only [toSrcStmts]; rw [Src.trStmts]
 
-theorem cElifsA_c : ∀ (es : Elifs) (lb : Nat), cgElifs lv es = true → ∀ (env : Src.Env), PlainEnv env →
+theorem cElifsA_c : ∀ (es : Elifs) (lb : Nat), cgElifs lv es = true → (∀ n ∈ mlElifs es, n ∈ cx.defs) → ∀ (env : Src.Env), EnvOK cx env →
     EAC cx fuel env (synOf es) (cElifsA [] lb es)
-  | .nil, lb, _, env, he => by
+  | .nil, lb, _, hu, env, he => by
     intro E s0 s as s' _ h
     simp only [cElifsA, pure_ok, Prod.mk.injEq] at h
     obtain ⟨rfl, rfl⟩ := h
     exact ⟨SameStk.refl _, .nil⟩
-  | .cons neg hdrs body r, lb, hg, env, he => by
+  | .cons neg hdrs body r, lb, hg, hu, env, he => by
     intro E s0 s as s' hst h
     simp only [cgElifs, Bool.and_eq_true] at hg
     simp only [cElifsA, bind_ok, pure_ok] at h
     obtain ⟨a, s1, h1, rest, s2, h2, h3⟩ := h
     simp only [Prod.mk.injEq] at h3
     obtain ⟨rfl, rfl⟩ := h3
-    obtain ⟨e1, ea⟩ := elifAOf_c cx fuel env neg hdrs body (hdrsOK_of_all hdrs hg.1.1) (cStmts_c body lb hg.1.2 env he) E s0 hst h1
-    obtain ⟨e2, er⟩ := cElifsA_c r _ hg.2 env he E s0 _ _ _ (hst.trans e1) h2
-    exact ⟨e1.trans e2, .cons ea er⟩
+    obtain ⟨e1, ea⟩ := elifAOf_c cx fuel env neg hdrs body (hdrsOK_of_all hdrs hg.1.1) (cStmts_c body lb hg.1.2 (fun n hn => hu n (by simp [mlStmt, mlStmts, mlElifs, mlCases, hn])) env he) E s0 hst h1
+    obtain ⟨e2, er⟩ := cElifsA_c r _ hg.2 (fun n hn => hu n (by simp [mlStmt, mlStmts, mlElifs, mlCases, hn])) env he E s0 _ _ _ (hst.trans e1) h2
+    exact ⟨e1.trans e2, .cons (ea.mono e2.3) er⟩
 
-theorem cElifsB_c : ∀ (es : Elifs) (lb : Nat), cgElifs lv es = true → ∀ (env : Src.Env), PlainEnv env →
+theorem cElifsB_c : ∀ (es : Elifs) (lb : Nat), cgElifs lv es = true → (∀ n ∈ mlElifs es, n ∈ cx.defs) → ∀ (env : Src.Env), EnvOK cx env →
     EBC cx fuel env (synOf es) (cElifsB [] lb es)
-  | .nil, lb, _, env, he => by
-    intro E s0 as hall s late s' _ h
+  | .nil, lb, _, hu, env, he => by
+    intro E s0 sA as hall s late s' _ _ h
     cases hall
     simp only [cElifsB, pure_ok, Prod.mk.injEq] at h
     obtain ⟨rfl, rfl⟩ := h
-    exact ⟨SameStk.refl _, [], rfl, fun d hd => by simp at hd, fun d hd => by simp at hd, rfl, rfl⟩
-  | .cons neg hdrs body r, lb, hg, env, he => by
-    intro E s0 as hall s late s' hst h
+    exact ⟨SameStk.refl _, [], rfl, fun d hd => by simp at hd, fun d hd => by simp at hd, fun d hd => by simp at hd, rfl, rfl⟩
+  | .cons neg hdrs body r, lb, hg, hu, env, he => by
+    intro E s0 sA as hall s late s' hst hleA h
     simp only [cgElifs, Bool.and_eq_true] at hg
     cases hall with
     | @cons y a ys as' ha hrest =>
@@ -109,9 +116,9 @@ theorem cElifsB_c : ∀ (es : Elifs) (lb : Nat), cgElifs lv es = true → ∀ (e
       obtain ⟨blk, s1, h1, rest, s2, h2, h3⟩ := h
       simp only [Prod.mk.injEq] at h3
       obtain ⟨rfl, rfl⟩ := h3
-      obtain ⟨e1, br, nh, nb⟩ := elifBOf_c cx fuel env ⟨neg, hdrs, body⟩ (cStmts_c body lb hg.1.2 env he) E s0 ha hst h1
-      obtain ⟨e2, ds, hsyn, hbrs, hnns, hf, hbk⟩ := cElifsB_c r _ hg.2 env he E s0 as' hrest _ _ _ (hst.trans e1) h2
-      refine ⟨e1.trans e2, ⟨neg, hdrs, body, blk.hdrs, patchNone E blk.items⟩ :: ds, by simp [BrD.syn, hsyn, synOf], ?_, ?_, ?_, ?_⟩
+      obtain ⟨e1, sB, hsB, br, nh, nb⟩ := elifBOf_c cx fuel env ⟨neg, hdrs, body⟩ (cStmts_c body lb hg.1.2 (fun n hn => hu n (by simp [mlStmt, mlStmts, mlElifs, mlCases, hn])) env he) E s0 ha hst hleA h1
+      obtain ⟨e2, ds, hsyn, hbrs, hnns, hles, hf, hbk⟩ := cElifsB_c r _ hg.2 (fun n hn => hu n (by simp [mlStmt, mlStmts, mlElifs, mlCases, hn])) env he E s0 sA as' hrest _ _ _ (hst.trans e1) (hleA.trans e1.3) h2
+      refine ⟨e1.trans e2, ⟨neg, hdrs, body, blk.hdrs, patchNone E blk.items, sB⟩ :: ds, by simp [BrD.syn, hsyn, synOf], ?_, ?_, ?_, ?_, ?_⟩
       · intro d hd
         simp only [List.mem_cons] at hd
         rcases hd with rfl | hd
@@ -122,22 +129,27 @@ theorem cElifsB_c : ∀ (es : Elifs) (lb : Nat), cgElifs lv es = true → ∀ (e
         rcases hd with rfl | hd
         · exact ⟨nh, nb⟩
         · exact hnns d hd
+      · intro d hd
+        simp only [List.mem_cons] at hd
+        rcases hd with rfl | hd
+        · exact hsB.trans e2.3
+        · exact hles d hd
       · have hn : a.neg = neg := ha.1
         simp only [elifsFront, frontOf, patchNone_append, patchNone_id _ _ nh, patchNone_if, hf, hn]
       · have hn : a.neg = neg := ha.1
         simp only [elifsBack, backOf, patchNone_append, hbk, hn]
         cases neg <;> rfl
-theorem cCases_c : ∀ (cs : Cases) (lb : Nat) (sw : String), cgCases lv sw cs = true →
+theorem cCases_c : ∀ (cs : Cases) (lb : Nat) (sw : String), cgCases lv sw cs = true → (∀ n ∈ mlCases cs, n ∈ cx.defs) →
     CasesC cx fuel sw cs (fun endL bps st => cCases [] lb endL cs bps st)
-  | .nil, lb, sw, _ => by
+  | .nil, lb, sw, _, hu => by
     intro env he endL bps st s st' s' _ _ _ h
     simp only [cCases, pure_ok, Prod.mk.injEq] at h
     obtain ⟨rfl, rfl⟩ := h
     refine ⟨SameStk.refl _, id, [], [], by simp, by simp, fun x hx => by simp at hx, fun x hx => by simp at hx, fun hw => ?_⟩
     rw [hw]
     simp only [wSrc, toSrcCases]
-    exact sw_nil cx fuel env endL _ _ _
-  | .cons true n ps body r, lb, sw, hg => by
+    exact sw_nil cx fuel env endL _ _ _ _
+  | .cons true n ps body r, lb, sw, hg, hu => by
     intro env he endL bps st s st' s' hb hw hnd h
     simp only [cgCases, Bool.and_eq_true, Bool.not_eq_true'] at hg
     simp only [cCases, bind_ok] at h
@@ -159,29 +171,30 @@ theorem cCases_c : ∀ (cs : Cases) (lb : Nat) (sw : String), cgCases lv sw cs =
         rcases hbp with hbp | hbp
         · exact hw bp hbp
         · cases hbp
-      obtain ⟨e, nnD, Hn, Cn, hH, hC, n1, n2, hsem⟩ := cCases_c r _ sw hg.2 env he endL bps (st.wait none) _ st' s' hb hw1
+      obtain ⟨e, nnD, Hn, Cn, hH, hC, n1, n2, hsem⟩ := cCases_c r _ sw hg.2 (fun n hn => hu n (by simp [mlStmt, mlStmts, mlElifs, mlCases, hn])) env he endL bps (st.wait none) _ st' s' hb hw1
         (by rw [hcr]; split <;> omega) h2
       refine ⟨e, nnD, Hn, Cn, hH, hC, n1, n2, fun hw' => ?_⟩
       have := hsem hw'
       simpa [SwSt.wait, wSrc_append, wSrc, toSrcCases, toSrcStmts] using this
     | cons b0 br =>
       simp only [Stmts.isNil] at h1
-      obtain ⟨e1, hw1, hs, d1, sL, eB, ops, sa, sb, n0, hH1, hC1, hD1, ws, hP, la, ca⟩ :=
+      obtain ⟨e1, hw1, hs, d1, sL, eB, ops, sa, sb, n0, hH1, hC1, hD1, ws, hP, la, ca, hsb⟩ :=
         defaultStep_c cx fuel endL (.cons b0 br) (cStmts_ret lv _ lb hg.1.2 hg.1.1.2)
-          (fun env' he' => cStmts_c (.cons b0 br) lb hg.1.2 env' he') hw h1
-      obtain ⟨e2, nnD, Hr, Cr, hH2, hC2, n1, n2, hsem⟩ := cCases_c r _ sw hg.2 env he endL bps st1 s1 st' s' hb
+          (fun env' he' => cStmts_c (.cons b0 br) lb hg.1.2 (fun n hn => hu n (by rw [mlCases]; exact List.mem_append_left _ hn)) env' he') hw h1
+      obtain ⟨e2, nnD, Hr, Cr, hH2, hC2, n1, n2, hsem⟩ := cCases_c r _ sw hg.2 (fun n hn => hu n (by simp [mlStmt, mlStmts, mlElifs, mlCases, hn])) env he endL bps st1 s1 st' s' hb
         (by rw [hw1]; intro bp hbp; simp at hbp) (by rw [hw1, hcr]; simp [hasNone]) h2
       refine ⟨e1.trans e2, fun hd => nnD (by rw [hD1]; exact waitSem_nonone ws (noNone_jump _ _)), hs ++ Hr,
         ([LItem.label sL false] ++ ops ++ [LItem.label eB false]) ++ Cr, by rw [hH2, hH1, List.append_assoc],
         by rw [hC2, hC1, List.append_assoc], ws.nonone.append n1,
-        (((noNone_label _ _).append (hP {} ⟨rfl, rfl⟩).nonone).append (noNone_label _ _)).append n2, fun hw' => ?_⟩
+        (((noNone_label _ _).append (hP {} (envOK_empty cx)).nonone).append (noNone_label _ _)).append n2, fun hw' => ?_⟩
       have hR := (hsem hw').stk e1.1 e1.2
       rw [hw1, hD1] at hR
       simp only [wSrc] at hR
       simp only [toSrcCases]
-      exact sw_default cx fuel env he endL s.loops s.cases st.waiting hs st.defaultOps d1 sL eB ops sa sb (.cons b0 br) n0 hP la ca ws hR
+      exact sw_default cx fuel env he endL s.loops s.cases st.waiting hs st.defaultOps d1 sL eB ops sa sb (.cons b0 br) n0 hP la ca ws
+        (hsb.trans e2.3) hR
         (fun k nt b => trCases_nodefault fuel (brkEnv env k) he.1 sw r k nt b (countDefaults_zero r hcr))
-  | .cons false n ps body r, lb, sw, hg => by
+  | .cons false n ps body r, lb, sw, hg, hu => by
     intro env he endL bps st s st' s' hb hw hnd h
     simp only [cgCases, Bool.false_or, Bool.and_eq_true, Bool.not_eq_true'] at hg
     cases bps with
@@ -210,19 +223,19 @@ theorem cCases_c : ∀ (cs : Cases) (lb : Nat) (sw : String), cgCases lv sw cs =
         induction w with
         | nil => rfl
         | cons x w ih => cases x <;> simp [hasNone, ih]
-      obtain ⟨e, nnD, Hn, Cn, hH, hC, n1, n2, hsem⟩ := cCases_c r _ sw hg.2 env he endL bps' (st.wait (some bp)) _ st' s' hb' hw1
+      obtain ⟨e, nnD, Hn, Cn, hH, hC, n1, n2, hsem⟩ := cCases_c r _ sw hg.2 (fun n hn => hu n (by simp [mlStmt, mlStmts, mlElifs, mlCases, hn])) env he endL bps' (st.wait (some bp)) _ st' s' hb' hw1
         (by rw [hn1]; exact hnd') h2
       refine ⟨e, nnD, Hn, Cn, hH, hC, n1, n2, fun hw' => ?_⟩
       have := hsem hw'
       simpa [SwSt.wait, wSrc_append, wSrc, toSrcCases, toSrcStmts, caseName, hbn, hbp] using this
     | cons b0 br =>
       simp only [Stmts.isNil] at h1
-      obtain ⟨e1, hw1, hs, d1, sL, eB, ops, sa, sb, n0, hH1, hC1, hD1, ws, hP, la, ca⟩ :=
+      obtain ⟨e1, hw1, hs, d1, sL, eB, ops, sa, sb, n0, hH1, hC1, hD1, ws, hP, la, ca, hsb⟩ :=
         caseStep_c cx fuel endL bp hbpos (.cons b0 br) (cStmts_ret lv _ lb hg.1.2 hg.1.1.2)
-          (fun env' he' => cStmts_c (.cons b0 br) lb hg.1.2 env' he') hw h1
+          (fun env' he' => cStmts_c (.cons b0 br) lb hg.1.2 (fun n hn => hu n (by rw [mlCases]; exact List.mem_append_left _ hn)) env' he') hw h1
       have hcr : hasNone st.waiting = true → countDefaults r = 0 := by
         intro hh; rw [hh] at hnd'; simp only [if_true] at hnd'; omega
-      obtain ⟨e2, nnD, Hr, Cr, hH2, hC2, n1, n2, hsem⟩ := cCases_c r _ sw hg.2 env he endL bps' st1 s1 st' s' hb'
+      obtain ⟨e2, nnD, Hr, Cr, hH2, hC2, n1, n2, hsem⟩ := cCases_c r _ sw hg.2 (fun n hn => hu n (by simp [mlStmt, mlStmts, mlElifs, mlCases, hn])) env he endL bps' st1 s1 st' s' hb'
         (by rw [hw1]; intro bp hbp; simp at hbp) (by
           rw [hw1]; simp only [hasNone, Bool.false_eq_true, if_false, Nat.zero_add]
           split at hnd' <;> omega) h2
@@ -230,12 +243,13 @@ theorem cCases_c : ∀ (cs : Cases) (lb : Nat) (sw : String), cgCases lv sw cs =
         (hs ++ [LItem.ljump ⟨n0, bp.name, bp.params⟩ (some sL)]) ++ Hr,
         ([LItem.label sL false] ++ ops ++ [LItem.label eB false]) ++ Cr, by rw [hH2, hH1, List.append_assoc],
         by rw [hC2, hC1, List.append_assoc], (ws.nonone.append (noNone_jump _ _)).append n1,
-        (((noNone_label _ _).append (hP {} ⟨rfl, rfl⟩).nonone).append (noNone_label _ _)).append n2, fun hw' => ?_⟩
+        (((noNone_label _ _).append (hP {} (envOK_empty cx)).nonone).append (noNone_label _ _)).append n2, fun hw' => ?_⟩
       have hR := (hsem hw').stk e1.1 e1.2
       rw [hw1, hD1] at hR
       simp only [wSrc] at hR
       simp only [toSrcCases]
-      have := sw_case cx fuel env he endL s.loops s.cases st.waiting hs st.defaultOps d1 sL eB ops sa sb (.cons b0 br) n0 bp htest hP la ca ws hR
+      have := sw_case cx fuel env he endL s.loops s.cases st.waiting hs st.defaultOps d1 sL eB ops sa sb (.cons b0 br) n0 bp htest hP la ca ws
+        (hsb.trans e2.3) hR
         (fun hh k nt b => trCases_nodefault fuel (brkEnv env k) he.1 sw r k nt b (countDefaults_zero r (hcr hh)))
       simpa [caseName, hbn, hbp] using this
 end
